@@ -4,6 +4,26 @@ from common import build, log
 LEVEL = "model_checking"
 
 
+def long_sources(chk, th):
+    from common import run_th
+    sizes = (200, 1000, 1023, 1024, 1025, 1500, 3000)
+    inputs = [{"i": k, "files": {"m": " ;\n".join(["x := x + 1"] * n) + "\n"}, "main": "m", "watch": 300} for k, n in enumerate(sizes)]
+    inputs += [{"i": len(sizes) + k, "files": {"m": " ;\n".join(["x := %d" % (j % 7) for j in range(n)]) + "\n"}, "main": "m", "watch": 300}
+               for k, n in enumerate((1025, 3000))]            # the same without the sugar
+    recs, rc, err = run_th(th, ["compile"], inputs, timeout=1200)
+    got = {x["i"]: x for x in recs if "ok" in x}
+    names = ["%d uses of the + sugar" % n for n in sizes] + ["%d plain assignments" % n for n in (1025, 3000)]
+    keys = ["c04:long:sugar:%d" % n for n in sizes] + ["c04:long:plain:%d" % n for n in (1025, 3000)]
+    for k, nm in enumerate(names):
+        x = got.get(k)
+        if x is None:
+            chk.violation(keys[k] + ":abort", "Theo::compile did not return (exit %s) on a flat source with %s: %s" % (rc, nm, err[-800:]), {"input": nm})
+        elif not x["ok"]:
+            chk.violation(keys[k], "a macro-free flat source with %s is a sentence of the grammar but is rejected: %s"
+                          % (nm, [(e["file"], e["line"], e["msglen"]) for e in x["errors"]][:3]), {"source": "x := x + 1 ; ... (%s)" % nm, "result": x})
+    return len(got)
+
+
 def run(chk):
     th = build("plain")
     n_tok, n_chunk, n_ref = (10, 6, 9) if chk.thorough else (8, 5, 8)
@@ -32,8 +52,21 @@ def run(chk):
     total += parse.replay_verdicts(chk, th, cases, "c04:refs", chk.seed + 2)
     # neighbours of generated valid sources, decided by the automaton
     lists = parse.mutants(chk.seed, 1500 if chk.thorough else 250)
+    # the names the built-in sugar expands to are ordinary identifiers when the user writes them: a RUN of __INC__ / __DEC__ needs a
+    # definition like any other, and a program of that name is called like any other
+    for src in ("x := RUN __INC__ WITH x , 1 END", "y := 4 ; x := RUN __DEC__ WITH y , 2 END ; z := x",
+                "PROGRAM __INC__ IN a , b DO x0 := 7 END x := RUN __INC__ WITH x , 3 END",
+                "PROGRAM __DEC__ IN a DO x0 := a END x := RUN __DEC__ WITH x , 3 END",
+                "PROGRAM __DEC__ IN a , b DO x0 := a END x := RUN __DEC__ WITH x , 3 END ; y := x - 1",
+                "PROGRAM f IN a DO x0 := RUN __INC__ WITH a , 1 END END x := RUN f WITH 2 END"):
+        lists.append(parse.tokenize(src))
+    for n in (3, 40) + ((1025,) if chk.thorough else ()):
+        lists.append(parse.tokenize(" ; ".join(["x := x + 1"] * n)))
     verdict = parse.decide(chk, lists)
     total += parse.replay_decided(chk, th, lists, verdict, "c04:mutants", chk.seed + 3)
+    # long flat sources: n copies of 'x := x + 1' joined by ';' form a sentence for every n (P -> STMT MOREP, MOREP -> ; P). TheoParse
+    # decides the schema for n = 3 and 40 above (thorough: also 1025); for the long instances the verdict is taken from that lemma
+    total += long_sources(chk, th)
     chk.add("mutated_sources", len(lists))
     chk.add("mutated_sources_accepted_by_spec", sum(1 for v in verdict.values() if v["acc"]))
     chk.cov["traces_validated_against_impl"] = total
@@ -44,5 +77,5 @@ def run(chk):
                        "skeletons to depth %d; 1-4 token mutations of generated programs decided by the automaton; every case is compiled "
                        "for real and the verdicts must agree in both directions" % (n_tok, n_chunk, n_ref))
     chk.assumptions += ["duplicate labels / parameter names and user macros are outside the domain (dropped and counted)",
-                        "reserved names __INC__/__DEC__ are not generated"]
+                        ]
     log("C04: %d verdicts compared" % total)
